@@ -3,6 +3,7 @@
 package main
 
 import (
+	"fmt"
 	"unsafe"
 
 	"github.com/cloudwego/dynamicgo/thrift"
@@ -148,6 +149,18 @@ func genC01(r *rng, n int) {
 		g := newTgen(r.fork())
 		g.structKeys = true
 		root := g.genStruct(0)
+		if vi%3 == 0 {
+			// field ids around the storage thresholds of Children / Load (StoreChildrenById: 256; powers of two beyond)
+			used := map[int16]bool{}
+			for _, f := range root.Fields {
+				used[f.ID] = true
+			}
+			for _, id := range []int16{254, 255, 256, 257, 258, 511, 512, 513, 1023, 1024, 1025} {
+				if !used[id] && r.chance(45) {
+					root.Fields = append(root.Fields, &Fld{ID: id, Name: fmt.Sprintf("t_%d", id), T: &Ty{K: scalarKinds[r.intn(len(scalarKinds))]}})
+				}
+			}
+		}
 		idl := g.idl(root)
 		desc, err := parseThrift(idl, thrift.Options{})
 		if err != nil {
@@ -334,11 +347,29 @@ func genC01(r *rng, n int) {
 				}
 			}
 		}
+		// map<byte,V>: a key byte 0x80..0xff is the int key 128..255 for every API (and NOT the negative int8 reading)
+		byteKeyProbes := func(p []Step) {
+			pv := val.at(p[:len(p)-1])
+			ev := val.at(p)
+			if pv == nil || ev == nil || pv.T.K != thrift.MAP || pv.T.Key.K != thrift.I08 {
+				return
+			}
+			for i, k := range pv.Keys {
+				if pv.Elems[i] == ev && k.I < 0 {
+					for _, n := range []int64{k.I + 256, k.I} {
+						q := append([]Step(nil), p...)
+						q[len(q)-1] = Step{Kind: 4, N: n}
+						run(q)
+					}
+				}
+			}
+		}
 		for _, p := range paths {
 			run(p)
 			if len(p) > 0 {
 				intKeyProbes(p)
 				binKeyProbes(p)
+				byteKeyProbes(p)
 			}
 			// invalid variants: perturb the last step / append a bad step
 			if r.chance(40) {
